@@ -775,11 +775,11 @@ class BaseDiscretizer(BaseEstimator, TransformerMixin):
         # checking for mode
         assert mode in ["group", "replace"], " - [Discretizer] Choose mode in ['group', 'replace']"
 
-        # checking for nans
-        if isnan(discarded_value):
+        # checking for nans (values can be strings)
+        if isna(discarded_value):
             discarded_value = self.str_nan
             self.features_dropna[feature] = True
-        assert not isnan(
+        assert not isna(
             kept_value
         ), " - [Discretizer] missing values can only be grouped with an existing modality"
 
